@@ -152,6 +152,7 @@ func init() {
 			c.Clause("C13-D2")
 			ruleEncoderWrites(c)
 			ruleEncoderOneOf(c)
+			ruleMarshalOutputImmutable(c)
 			ruleConstantFormats(c)
 			ruleBareObject(c)
 			c.Clause("C13-D3")
@@ -190,6 +191,7 @@ func init() {
 			ruleServerErrorMapping(c, d)
 			c.Clause("C14-D5")
 			ruleClientErrorMapping(c)
+			ruleCallbackMarshalErrorReported(c)
 			ruleEveryPeerErrorFiltered(c)
 			ruleWatcherReportsCtxErr(c, "client")
 			ruleWatcherReportsCtxErr(c, "server")
